@@ -12,11 +12,20 @@ import (
 // Barn is bound by name.
 type Barn struct {
 	Name, Size, Cows, Best, Next interface{}
+	// unexported twins of two exported fields (names that differ in case only): reflection binds the exported ones
+	name, size interface{} //nolint
+}
+
+// MilkBase is embedded in Cow: Milk is a promoted field, one level below the unexported twin Cow.milk.
+type MilkBase struct {
+	Milk interface{}
 }
 
 // Cow is bound by name.
 type Cow struct {
-	Name, Milk, Barn, Tags, Calves interface{}
+	MilkBase
+	Name, Barn, Tags, Calves interface{}
+	milk interface{} //nolint
 }
 
 // Query is the farm's query root type (bound by name).
